@@ -135,6 +135,7 @@ type HistCfg struct {
 
 // History is a complete generated multi-file binlog.
 type History struct {
+	jumbo          bool
 	retired        []*TableDef // tables whose id was taken over by another table (the mapper still knows them)
 	wildTS         bool
 	lastXid        uint64
@@ -343,6 +344,21 @@ func oddIdentifiers(s *Stream, tabs []*TableDef) {
 		}
 	}
 	if len(tabs) >= 2 && s.Chance(1, 12) {
+		// two names of the same length (65..200 bytes) that agree in their first 64
+		// bytes and in everything but one late byte (sharded / generated names)
+		n := 65 + s.N(136)
+		base := []byte(strings.Repeat("shard_of_a_very_long_generated_table_name_", 6))[:n]
+		a, b2 := append([]byte(nil), base...), append([]byte(nil), base...)
+		k := 64 + s.N(n-64)
+		a[k], b2[k] = '1', '2'
+		if s.Chance(1, 2) || len(tabs[0].Name) > 200 {
+			tabs[0].Name, tabs[1].Name = string(a), string(b2)
+			tabs[1].DB = tabs[0].DB
+		} else {
+			tabs[0].DB, tabs[1].DB = string(a), string(b2)
+			tabs[1].Name = tabs[0].Name + "_" // (<= 201 bytes: the length is one byte on the wire)
+		}
+	} else if len(tabs) >= 2 && s.Chance(1, 12) {
 		parts := []string{"shop", "eu", "orders", "a", "b", "c", "x y", "d.e"}
 		a, b2, c := parts[s.N(len(parts))], parts[s.N(len(parts))], parts[s.N(len(parts))]
 		tabs[0].DB, tabs[0].Name = a+"`.`"+b2, c
@@ -957,9 +973,12 @@ func (b *builder) txBody(ts uint32) []ExpEvent {
 		t := &TableDef{ID: maxID + 5, DB: "db", Name: "bulk_load", Cols: []ColDef{
 			{Name: "id", Kind: kLong, TypeCode: tLong}, {Name: "v", Kind: kTiny, TypeCode: tTiny, Nullable: true}}}
 		b.h.Tables = append(b.h.Tables, t)
+		saved := b.o.MaxRows
+		b.o.MaxRows = 1 // (the "hundreds of rows" mode must not multiply with thousands of statements)
 		for i := 0; i < b.bulk; i++ {
 			exps = append(exps, b.singleRowsEvent(ts, t)...)
 		}
+		b.o.MaxRows = saved
 		b.bulk = 0
 		return exps
 	}
@@ -1367,7 +1386,7 @@ func genHistory(s *Stream, o0 *GenOpts) *History {
 	bulkAt, bulkN := -1, 0
 	if o.Rare && o.Bulk > 0 && s.Chance(1, o.Bulk) {
 		// a bulk load: one transaction of more than 1024 / 4096 single-row statements
-		bulkAt, bulkN = s.N(nunits), []int{1030, 1030, 4100}[s.N(3)]
+		bulkAt, bulkN = s.N(nunits), []int{1030, 1030, 4100, 4100, 16400}[s.N(5)]
 	}
 	for i := 0; i < nunits; i++ {
 		if i == bulkAt {
@@ -1658,7 +1677,19 @@ func (b *builder) addPoisonJSONUnit() {
 			body = leN(body, uint64(len(d)), 4)
 			return append(body, d...)
 		}
-		switch s.N(4) {
+		switch s.N(5) {
+		case 4: // the table map itself: its metadata block is longer than its columns account for
+			f := b.curFile()
+			tmEv := f.Events[len(f.Events)-1]
+			longMeta := append(append([]byte(nil), meta...), 0, 0)
+			tmEv2 := tableMapBody(cfg.Format, t.ID, 1, t.DB, t.Name, types, longMeta, nullable, nil)
+			// replace the table map just added by the over-long one
+			f.Events = f.Events[:len(f.Events)-1]
+			b.off = tmEv.Offset
+			b.add(evTableMap, ts, 0, tmEv2, fmt.Sprintf("TABLE_MAP id=%d db.jdoc with a metadata block 2 bytes too long", t.ID))
+			body := rowsBodyHeader(cfg.Format, cfg.RowsV2, t.ID, 1, nil, 2, []bool{true, true})
+			b.add(typ, ts, 0, img(body, good), "ROWS (well-formed) behind an undecodable table map")
+			u.Desc = "tx-with-undecodable-table-map"
 		case 0: // insert
 			body := rowsBodyHeader(cfg.Format, cfg.RowsV2, t.ID, 1, nil, 2, []bool{true, true})
 			b.add(typ, ts, 0, img(body, doc), "ROWS json with an unsupported opaque scalar")
@@ -1768,7 +1799,9 @@ func (b *builder) addExactUnit() {
 	cfg := &h.Cfg
 	t := h.exactTable
 	target := criticalPacketSizes[s.N(len(criticalPacketSizes))] + s.N(7) - 3
-	if s.Chance(1, 60) {
+	if s.Chance(1, 60) && !h.jumbo {
+		// (one such event per history: each costs some 200 MB of copies on its way)
+		h.jumbo = true
 		target = 1<<24 - 1 + s.N(5) - 2 // split over two MySQL packets (or exactly at the limit)
 	}
 	u := &Unit{Kind: uAutoRows, File: b.file, Start: b.off}
